@@ -1,6 +1,9 @@
-import NomtModel.Api.KVBasic
+import NomtModel.Api.KVLemmas
 /-!
-# C01 — Committed key-value state equals the sequential model  (first claim)
+# C01 — Committed key-value state equals the sequential model
+
+The sequential model is the strictly sorted association list of `Api/KV.lean`; the laws below say that it
+behaves as a map from keys to values (helper lemmas: `Api/KVBasic.lean`, `Api/KVLemmas.lean`).
 -/
 namespace Nomt.C01
 open Nomt
@@ -15,6 +18,61 @@ theorem T1_1b_get_insert_other (m : KVL VH) (k k' : Key) (v : VH) (hne : k' ≠ 
     kvGet (kvInsert m k v) k' = kvGet m k' :=
   kvGet_kvInsert_other m k k' v hne
 
-example : kvGet (kvInsert (kvInsert ([] : KVL Nat) [true] 1) [false] 2) [true] = some 1 := by decide
+/-- T1.1: the write law.  On a sorted map, after writing `w` (a value or a deletion) to `k`, the key `k`
+reads `w`, every other key is unchanged, and the map stays sorted. -/
+theorem T1_1_write_law (m : KVL VH) (hs : KSorted m) (k : Key) (w : Option VH) :
+    (∀ k', kvGet (kvWrite m k w) k' = if k' = k then w else kvGet m k') ∧ KSorted (kvWrite m k w) :=
+  ⟨kvGet_kvWrite hs k w, kvWrite_sorted hs k w⟩
+
+/-- T1.1c: the batch law — a key reads the last write to it in the batch (`kvApply` folds left, later
+entries win), else its old value; the result is sorted. -/
+theorem T1_1c_batch_law (m : KVL VH) (hs : KSorted m) (ws : List (Key × Option VH)) :
+    (∀ k, kvGet (kvApply m ws) k = match wsLookupLast ws k with | some w => w | none => kvGet m k) ∧
+    KSorted (kvApply m ws) :=
+  ⟨kvGet_kvApply hs ws, kvApply_sorted hs ws⟩
+
+/-- T1.1d: for a batch with pairwise distinct keys (what a session produces) first-wins = last-wins -/
+theorem T1_1d_batch_law_distinct (m : KVL VH) (hs : KSorted m) (ws : List (Key × Option VH)) (hd : WDistinct ws)
+    (k : Key) : kvGet (kvApply m ws) k = match wsLookup ws k with | some w => w | none => kvGet m k :=
+  kvGet_kvApply_distinct hs hd k
+
+/-- T1.2: `get` after a whole history of batches (applied oldest first to a sorted map) returns the value
+of the last write to `k` in the whole history — the write `(k, w)` after which no write to `k` follows —
+or the original value when `k` was never written. -/
+theorem T1_2_get_history_last_write (m : KVL VH) (hs : KSorted m) (bs : List (List (Key × Option VH)))
+    (k : Key) :
+    (∀ pre post w, bs.flatten = pre ++ (k, w) :: post → (∀ kw ∈ post, kw.1 ≠ k) →
+        kvGet (kvApplyAll m bs) k = w) ∧
+    ((∀ kw ∈ bs.flatten, kw.1 ≠ k) → kvGet (kvApplyAll m bs) k = kvGet m k) := by
+  rw [kvApplyAll_eq_flatten, kvGet_kvApply hs]
+  constructor
+  · intro pre post w e hp
+    rw [(wsLookupLast_eq_some_iff _ k w).2 ⟨pre, post, e, hp⟩]
+  · intro hn
+    rw [(wsLookupLast_eq_none_iff _ k).2 hn]
+
+/-- T1.2 in functional form, with `wsLookupLast` (characterised by `wsLookupLast_eq_some_iff` /
+`wsLookupLast_eq_none_iff`) over the concatenated history -/
+theorem T1_2b_get_history (m : KVL VH) (hs : KSorted m) (bs : List (List (Key × Option VH))) (k : Key) :
+    kvGet (kvApplyAll m bs) k = match wsLookupLast bs.flatten k with | some w => w | none => kvGet m k := by
+  rw [kvApplyAll_eq_flatten]; exact kvGet_kvApply hs _ k
+
+/-- T1.3: a deleted key is indistinguishable from one that never existed — the *lists* are equal, so
+every observation (reads, root, iteration) is -/
+theorem T1_3_delete_indistinguishable (m : KVL VH) (hs : KSorted m) (k : Key) (v : VH) (hn : kvGet m k = none) :
+    kvErase (kvInsert m k v) k = m :=
+  kvErase_kvInsert hs k v hn
+
+/-- T1.4: sorted maps are determined by their reads -/
+theorem T1_4_extensionality (a b : KVL VH) (ha : KSorted a) (hb : KSorted b) (h : ∀ k, kvGet a k = kvGet b k) :
+    a = b := kv_ext ha hb h
+
+/-- non-vacuity: a sorted two-element map, a history writing `[true]` twice and deleting `[false]` -/
+example : KSorted ([([false], 2), ([true], 1)] : KVL Nat) ∧
+    kvGet (kvApplyAll ([([false], 2), ([true], 1)] : KVL Nat)
+      [[([true], some 5), ([false], none)], [([true], some 7)]]) [true] = some 7 ∧
+    kvErase (kvInsert ([([false], 2)] : KVL Nat) [true] 1) [true] = [([false], 2)] := by
+  refine ⟨?_, by decide, by decide⟩
+  simp [KSorted, bitsLt]
 
 end Nomt.C01
